@@ -259,8 +259,9 @@ class Program:
             last = self._last_seg(f.name)
             if f.kind == "fn":
                 self.by_last.setdefault(last, []).append(f)
-                if f.params and f.params[0][1].lstrip("&").startswith("{closure@"):
-                    self.closures[norm_type(f.params[0][1].lstrip("&"))] = f
+                p0 = re.sub(r"^&(mut )?", "", f.params[0][1]) if f.params else ""
+                if p0.startswith("{closure@"):      # Fn: &{closure}, FnMut: &mut {closure}, FnOnce: {closure}
+                    self.closures[norm_type(p0)] = f
             else:
                 self.consts.setdefault(self._const_key(f.name), []).append(f)
         self.enums = dict(BUILTIN_ENUMS)
@@ -1294,7 +1295,8 @@ class Executor:
         if op == "BitAnd":
             if is_conc(a.t):
                 a, b = b, a
-            if is_conc(b.t) and not signed or (is_conc(b.t) and b.t >= 0 and self.proves(st, a.t >= 0)):
+            if is_conc(b.t) and not signed or (is_conc(b.t) and b.t >= 0 and (b.t.bit_length() < w or self.proves(st, a.t >= 0))):
+                # (signed operand, non-negative mask below the sign bit: the low bits of a two's complement value are its floor residue)
                 mask = b.t
                 if mask == 0:
                     return IV(0, ty)
